@@ -1,6 +1,13 @@
 #!/bin/sh
-# scratch.sh <patch> <dir>: copy /repo (without .git) to <dir> and apply <patch> (debugging aid; remove <dir> afterwards)
+# scratch.sh <patch|/dev/null> <dir>: copy /repo (without .git) to <dir>, make it a throw-away git repository
+# (so that `git diff` shows later edits), and apply <patch> on top (committed as the base of further edits).
+# Debugging aid; remove <dir> afterwards.
 set -e
 rm -rf "$2"; mkdir -p "$2"
 (cd /repo && tar --exclude=.git -cf - .) | (cd "$2" && tar -xf -)
-cd "$2" && git apply --unsafe-paths --directory="$2" "$1" 2>/dev/null || (cd "$2" && patch -p1 -s < "$1")
+cd "$2"
+git init -q . && git add -A && git -c user.name=x -c user.email=x@x commit -qm base
+if [ -s "$1" ]; then
+  git apply "$1" 2>/dev/null || patch -p1 -s < "$1"
+  git add -A && git -c user.name=x -c user.email=x@x commit -qm patched
+fi
